@@ -400,8 +400,10 @@ class ResponseHandler(BaseProtocol, DataQueue[tuple[RawResponseMessage, StreamRe
             # EMPTY_PAYLOAD
             if payload is not EMPTY_PAYLOAD:
                 payload.on_eof(self._drop_timeout)
-            else:
+            elif not self._exchange_open:
                 self._drop_timeout()
+            # else: an interim (1xx) response; the final one is still
+            # awaited, so the read timeout keeps running.
 
         if upgraded and tail:
             self.data_received(tail)
